@@ -1061,8 +1061,9 @@ fn run_eventually(a: &Args, shared: &SharedReport, checks: Vec<&'static str>, wi
                 for st in &strategies {
                     let b = [None, Some(1), Some(2), Some(3)][(idx % 4) as usize];
                     run.case(&m, &orc, &Config { block: b, ..Config::plain(st.clone()) }, None);
-                    if th && idx % 8 == 0 {
-                        for t in [2usize, 3] {
+                    if (th && idx % 8 == 0) || (m.inits.len() >= 3 && idx % 2 == 0) {
+                        // (more initial states than workers: how the initial jobs are dealt out matters)
+                        for t in [2usize, 3, 4] {
                             run.case(&m, &orc, &Config { threads: t, block: Some(1), ..Config::plain(st.clone()) }, None);
                         }
                     }
